@@ -243,7 +243,7 @@ pub fn run(ctx: &Ctx, report: &mut Report) {
         .into();
     report.assumptions.push("the TCP response is the complete response; cases whose TCP response is SERVFAIL (> 65535 octets) are skipped and counted".into());
     report.assumptions.push("requests without TSIG (the TSIG reservation window is covered by C10's twin comparison on small answers)".into());
-    run_prop(ctx, report, PropSpec { name: "truncation", cases: ctx.tier.pick(20_000, 300_000), max_shrink_iters: 3000 }, case_strategy, oracle);
+    run_prop(ctx, report, PropSpec { name: "truncation", cases: ctx.tier.pick(80_000, 800_000), max_shrink_iters: 3000 }, case_strategy, oracle);
 }
 
 pub fn replay(_check: &str, case: &serde_json::Value) -> Verdict {
